@@ -3575,6 +3575,9 @@ class DecVar(Vars):
             self.event_adapt.pop(0)
 
         self.event_adapt.append(list(self.dro_model.series_scen[events]))
+        self.dro_model.var_ev_list = None
+        self.dro_model.pupdate = True
+        self.dro_model.dupdate = True
 
     def affadapt(self, rvars):
 
@@ -3642,7 +3645,7 @@ class DecVar(Vars):
             msg += f'{solution.solver} solution status: {solution.status}.'
             raise RuntimeError(msg)
 
-        var_sol = dro_model.ro_model.rc_model.vars[1].get()
+        var_sol = dro_model.var_const.get()
         edict = event_dict(self.event_adapt)
         if rvar is None:
             outputs = []
@@ -3772,6 +3775,9 @@ class DecVarSub(VarSub):
 
         self.rand_adapt[dec_indices_flat, rand_indices_flat] = 1
         self.dvars.rand_adapt = self.rand_adapt
+        self.dro_model.var_ev_list = None
+        self.dro_model.pupdate = True
+        self.dro_model.dupdate = True
 
     def __le__(self, other):
 
